@@ -244,6 +244,28 @@ theorem history_alias_partial (ops : List Op) (hv : ∀ op ∈ ops, op.Valid) (h
   rw [heq] at hw
   exact findName_alias_partial _ hwf cur bytes hw a ha k hk hak hnp
 
+/-- after any valid history: `FindNumber` enumerates the logical content's primary keys in `strcmp` order, and
+    `FileInfo` reports the registered files -/
+theorem history_enumeration (ops : List Op) (hv : ∀ op ∈ ops, op.Valid) (hf : (logical ops).files ≠ [])
+    (hn : ops.length < 2^40) (cur : Option Bytes) (bytes : Bytes) (hw : ((run ops).write cur).2.2 = some bytes) :
+    (∃ sorted : List PKey, sorted.Perm (logical ops).pkeys ∧ StrictSorted (sorted.map (·.key)) ∧
+      ∀ i (hi : i < sorted.length),
+        (Ssi.open bytes.toArray).bind (·.findNumber (i : Int)) =
+          .ok (⟨sorted[i].fnum, sorted[i].roff, sorted[i].doff, sorted[i].len⟩, strncpy (logical ops).plen sorted[i].key)
+        ∧ cstr (strncpy (logical ops).plen sorted[i].key) = sorted[i].key) ∧
+    (∀ fh (hfh : fh < (logical ops).files.length),
+      (Ssi.open bytes.toArray).bind (·.fileInfo fh) =
+        .ok { name := strncpy (logical ops).flen (logical ops).files[fh].name, format := (logical ops).files[fh].fmt,
+              flags := if (logical ops).files[fh].bpl > 0 ∧ (logical ops).files[fh].rpl > 0 then 1 else 0,
+              bpl := (logical ops).files[fh].bpl, rpl := (logical ops).files[fh].rpl }) := by
+  obtain ⟨hwf, heq⟩ := run_write_eq_logical ops hv hf hn cur
+  rw [heq] at hw
+  obtain ⟨sorted, h1, h2, h3, _⟩ := findNumber_sorted _ hwf cur bytes hw
+  refine ⟨⟨sorted, h1, h2, h3⟩, ?_⟩
+  intro fh hfh
+  have := fileInfo_spec _ hwf cur bytes hw fh
+  simpa [hfh] using this
+
 /-! ## non-vacuity and the known finding -/
 
 /-- a concrete history: one file, keys `a`, `ab`, `b` (a prefix chain), alias `z → ab`, switch to the external sort
